@@ -174,6 +174,9 @@ class Interp:
             return v.m_iter(self)
         if isinstance(v, Instance) and v.store is not None:
             return self.iterate(v.store)
+        if isinstance(v, Sym) and "model.val_iter" in self.ext:
+            # an opaque value known (on this path) to be a list: the contract supplies its sequence view
+            return self.ext["model.val_iter"](self, [v], {})
         raise Unsupported(f"iteration over {type(v).__name__}")
 
     def dict_items(self, d):
